@@ -326,6 +326,9 @@ pub enum Variant {
     EmptyParents,
     SubRoot,
     ErrAt(usize),
+    /// entries after the null that ends the root's children, still inside the unit: a leaf, then
+    /// an entry with one child
+    Trailing,
 }
 
 pub fn tree_abbrevs() -> Vec<u8> {
@@ -377,6 +380,16 @@ pub fn tree_unit(parent: &[usize], v: Variant) -> (Vec<u8>, Vec<usize>) {
     let mut d = Enc::new(false);
     let mut offs = vec![0; n];
     rec(0, &kids, v, hs, &mut d, &mut offs);
+    if v == Variant::Trailing {
+        if kids[0].is_empty() {
+            // a root without children flag has no terminator of its own
+            d.uleb(0);
+        }
+        d.uleb(2).u8(0x70);
+        d.uleb(1).u8(0x71);
+        d.uleb(2).u8(0x72);
+        d.uleb(0);
+    }
     (unit(4, false, 4, 0, None, &d.buf), offs)
 }
 
@@ -591,6 +604,7 @@ fn tree_case(ctx: &mut Ctx, cfg: &(Vec<usize>, Variant), prefix: &[usize], rest:
         Variant::EmptyParents => "empty-parents",
         Variant::SubRoot => "rooted-at-child-offset",
         Variant::ErrAt(_) => "invalid-code-node",
+        Variant::Trailing => "entries-after-root-terminator",
     }));
 }
 
